@@ -25,7 +25,7 @@ RULE = ("Hypothesis-generated histories: a pool of 1-3 small configurations (sam
         "hash seed. One evaluation per compared instance. Non-trivial instance: >=2 other instances (>=1 of a different "
         "configuration) were created or stepped in the process before it finished; distinct = (history hash, instance).")
 ASSUMPTIONS = [
-    "instances built from SHARED input objects are used one after another (a live one is finished before the next is created): two live models stepping alternately over one mutable CO2 / field-management object are outside the property, which speaks of models built or run earlier; instances built from their own objects are interleaved freely",
+    "in histories with shared input objects, objects with equal settings are ONE object for all configurations of the pool and the models are used one after another (every live one is finished before the next is created): two live models stepping alternately over one mutable CO2 / field-management object are outside the property, which speaks of models built or run earlier; instances built from their own objects are interleaved freely",
     "thread-level interleaving is not explored (the library is single-threaded); the 'schedule' is the order of API calls, which the harness owns",
     "fresh interpreters are /venv/bin/python -m harness.solo started with PYTHONHASHSEED set to the generated value",
     "worker assignment is varied implicitly: histories are evaluated in 16 forked worker processes, each having run different earlier histories",
@@ -69,7 +69,7 @@ def histories(draw):
             t = copy.deepcopy(pool[0])
             for _k in range(draw(st.integers(1, 2))):
                 what = draw(st.sampled_from(["HIini", "HI0", "CCx", "WP", "Zmax", "Tbase", "SxTopQ", "fshape_b", "GermThr", "PlantPop",
-                                             "cn", "rew", "AppEff", "noise", "et0", "iwc"]))
+                                             "cn", "rew", "AppEff", "noise", "et0", "iwc", "window", "window"]))
                 ov = t["crop"].setdefault("overrides", {})
                 if what == "HIini":
                     ov["HIini"] = draw(st.sampled_from([0.005, 0.02, 0.03]))
@@ -102,6 +102,23 @@ def histories(draw):
                     t["weather"]["noise"] = int(t["weather"].get("noise", 0)) + draw(st.integers(1, 50))
                 elif what == "et0":
                     t["weather"]["et0"] = float(t["weather"].get("et0", 4.0)) + draw(st.sampled_from([-0.5, 0.7]))
+                elif what == "window":
+                    # the same configuration some years earlier / later (input objects with equal settings stay shareable)
+                    import datetime as _dt
+
+                    k = draw(st.sampled_from([-3, -1, 1, 2, 5]))
+                    try:
+                        def sh(sv, fmt):
+                            d0 = _dt.datetime.strptime(sv, fmt)
+                            return d0.replace(year=d0.year + k).strftime(fmt)
+                        t["start"], t["end"] = sh(t["start"], "%Y/%m/%d"), sh(t["end"], "%Y/%m/%d")
+                        t["weather"]["first"] = sh(t["weather"]["first"], "%Y-%m-%d")
+                        if t.get("gw"):
+                            t["gw"]["dates"] = [sh(x, "%Y/%m/%d") for x in t["gw"]["dates"]]
+                        if (t.get("irr") or {}).get("schedule"):
+                            t["irr"]["schedule"] = [[sh(d_, "%Y-%m-%d"), v_] for d_, v_ in t["irr"]["schedule"]]
+                    except ValueError:
+                        pass   # 29 February
                 elif what == "iwc" and t.get("iwc") and t["iwc"]["wc_type"] == "Pct":
                     t["iwc"]["value"] = [min(100.0, v + 7.0) for v in t["iwc"]["value"]]
             pool.append(t)
@@ -143,14 +160,15 @@ def evaluate(case):
     activity = []  # (instance, cfg index) events in order
 
     shared_kw = {}
+    shared_objs = {}
 
     def create(i):
         try:
             if case.get("share"):
                 # shared input objects are used by one live model at a time (the property speaks of models built or run
-                # EARLIER): a live instance built from the same objects is run to its end before the next one is created
+                # EARLIER): every live instance is run to its end before the next one is created
                 for j in list(models):
-                    if inst[j] == inst[i] and not models[j]._clock_struct.model_is_finished:
+                    if not models[j]._clock_struct.model_is_finished:
                         g = 0
                         while j in models and not models[j]._clock_struct.model_is_finished and g < 300:
                             step(j, 500)
@@ -158,7 +176,17 @@ def evaluate(case):
                 # instances of the same configuration are built from ONE set of input objects (soil, crop, weather table,
                 # management, groundwater, CO2): a model that ran earlier must not leave anything behind in them
                 if inst[i] not in shared_kw:
-                    shared_kw[inst[i]] = build(pool[inst[i]])
+                    kw = build(pool[inst[i]])
+                    # input objects with EQUAL settings are one object for all configurations of the pool (e.g. one CO2
+                    # table or one Soil handed to several models, possibly for different windows)
+                    for arg, key in (("soil", "soil"), ("crop", "crop"), ("initial_water_content", "iwc"), ("irrigation_management", "irr"),
+                                     ("field_management", "fm"), ("fallow_field_management", "ffm"), ("groundwater", "gw"),
+                                     ("co2_concentration", "co2"), ("weather_df", "weather")):
+                        sub = pool[inst[i]].get(key)
+                        if arg in kw and sub is not None:
+                            kk = (key, json.dumps(sub, sort_keys=True, default=str))
+                            kw[arg] = shared_objs.setdefault(kk, kw[arg])
+                    shared_kw[inst[i]] = kw
                 m = AquaCropModel(**shared_kw[inst[i]])
             else:
                 m = make_model(pool[inst[i]])
